@@ -29,6 +29,19 @@ PROPS = {
             "live vocabulary.",
             "Coq theorem (induction over the board with decode's current-square accumulator) + regenerated vocabulary + differential correspondence in Coq",
             "torch tensor <-> list conversions in the harness; Python negative indexing modelled faithfully outside the domain.", "6/C06"),
+    "C16": (True, "Partial. The dataflow IR of the forward/__init__ methods (Resblock, Torso, embeddings, Transformer, both heads), "
+            "of encoding._encode_batch and of every mask producer and model call site (batch classes, ReplayBufferBatch, "
+            "Server.run_model, ModelWrapper.evaluate) is REGENERATED from the source on every run by a fail-closed ast translator "
+            "and proved (by computation) to denote the hand model; over that model, for abstract per-token operators and an "
+            "attention core that sees only the visible keys: padded = unpadded by induction over layers, rows never interact, the "
+            "causal output at token i depends on the prefix only, the head reads token 0, every producer marks exactly the padding; "
+            "softmax/tanh give a probability vector and a value in [-1,1] over Coq's Reals. What the model cannot exhibit: the "
+            "numerics of torch's kernels (fused fast paths, reduced precision) - validated numerically over real models and all "
+            "call paths (not a proof; threshold 1e-4, measured noise < 6e-6).",
+            "Coq theorem over a dataflow IR regenerated from the source (translator tie); numerical validation of the operator semantics",
+            "Translator harness/xformer_ir.py; assumed semantics of nn.MultiheadAttention masks (masked keys get weight exactly 0) and "
+            "of LayerNorm/Linear/Embedding acting per token; Reals axioms sig_forall_dec, sig_not_dec, functional_extensionality_dep "
+            "in C16_evaluate_is_distribution_partial only.", "6/C16"),
     "C07": (True, "Full. Theorems for every size n: the id table lists exactly the well-formed moves (table_spec), without "
             "repetition, encode/decode are mutual inverses between [0,|table n|) and the move universe; width bound proved for "
             "sizes 3-6 by computation. Tie is exhaustive: every id and move of sizes 0-6 compared with the model inside Coq.",
